@@ -102,6 +102,16 @@ def run(rep, tier, root=None):
     Dk = one(fK, [r, r0])
     Dkl = one(fKL, [r, L0])
     Dkk = one(fKK, [r])
+    # the value for a separation must not depend on the dtype the separations are passed in
+    from ..common import result_dtype_hazards
+    for f in (fC, fD, fK, fKL, fKK):
+        hz = result_dtype_hazards(f, [f.params[0]])
+        for node, text in hz:
+            rep.violation("V0.result-dtype", "%s: %s" % (f.fq, text[:70]),
+                          "%s - separations given as integers (numpy.arange, whole-number lists) give a structure function / covariance "
+                          "truncated to integers, which no longer equals the other copy of the law" % text, f.where(node))
+        if not hz:
+            rep.ok("V0.result-dtype", f.fq + ": result dtype does not follow an integer argument")
     for f, v in ((fC, C), (fD, D), (fK, Dk), (fKL, Dkl), (fKK, Dkk)):
         rep.sample({"function": f.fq, "normal_form": nf(v)})
         if has_unknown(v):
